@@ -3,7 +3,7 @@
 //! fees and toggles. Payloads stay *well-formed* in the fields a handler validates before its sender check
 //! (addresses that `addr_validate` sees first, existing flow ids) so that the verdict of the authorisation
 //! layer is observable; everything else is free.
-use super::hub::{fee, nat, tok, Hub, DAY_NS, HELPER_ALLOWANCE};
+use super::hub::{fee, flow_identifier, nat, tok, Hub, DAY_NS, HELPER_ALLOWANCE};
 use super::variants as v;
 use crate::common::Rng;
 use cosmwasm_std::{coin, from_json, to_json_binary, Addr, Binary, Coin, Decimal, Empty, Uint128, Uint64};
@@ -30,6 +30,10 @@ pub struct Ctx<'a> {
     pub sender: &'a Addr,
     pub rng: Rng,
     pub canon: bool,
+    /// object selector of the op line (variants listed in `variants::objects`), e.g. the flow to close
+    pub object: Option<&'a str>,
+    /// the message will be sent from inside a flash-loan callback of the hub's vault (LOAN_AMOUNT is out)
+    pub inloan: bool,
 }
 
 impl<'a> Ctx<'a> {
@@ -59,7 +63,7 @@ impl<'a> Ctx<'a> {
     fn any_addr(&mut self) -> String {
         let h = self.hub;
         let all = [
-            &h.o, &h.n, &h.u, &h.a, &h.f, &h.pool_factory, &h.pair, &h.trio, &h.router, &h.lp, &h.collector,
+            &h.o, &h.n, &h.u, &h.a, &h.f, &h.g, &h.borrower, &h.pool_factory, &h.pair, &h.trio, &h.router, &h.lp, &h.collector,
             &h.distributor, &h.lair, &h.vault, &h.vault_factory, &h.vault_router, &h.incentive, &h.inc_factory,
             &h.helper, &h.epoch_manager, self.sender,
         ];
@@ -565,11 +569,12 @@ fn incentive_factory_p(var: &str, cx: &mut Ctx) -> Option<Payload> {
 fn incentive_p(var: &str, cx: &mut Ctx) -> Option<Payload> {
     use inc::ExecuteMsg as M;
     let mut funds = vec![];
+    // ExpandFlow is open to everybody: any existing flow, by id or by label
     let flow_id = |cx: &mut Ctx| {
-        if cx.flip() {
-            inc::FlowIdentifier::Label("f1".into())
-        } else {
+        if cx.canon {
             inc::FlowIdentifier::Id(1)
+        } else {
+            flow_identifier(*cx.rng.pick(&["id1", "id2", "id3", "id4", "labShared", "labLate"])).unwrap()
         }
     };
     let m = match var {
@@ -586,8 +591,8 @@ fn incentive_p(var: &str, cx: &mut Ctx) -> Option<Payload> {
                 flow_label: if cx.flip() { Some(format!("l{}", cx.rng.below(100))) } else { None },
             }
         }
-        // the flow must exist: the handler looks it up before it checks the sender
-        "CloseFlow" => M::CloseFlow { flow_identifier: flow_id(cx) },
+        // the flow is named by the op line's object selector (the verdict depends on WHICH flow is meant)
+        "CloseFlow" => M::CloseFlow { flow_identifier: flow_identifier(cx.object?)? },
         "OpenPosition" => M::OpenPosition {
             amount: cx.amt(10_000),
             unbonding_duration: if cx.canon { 100_000 } else { cx.rng.range(80_000, 200_000) },
@@ -710,6 +715,8 @@ fn vault_p(var: &str, cx: &mut Ctx) -> Option<Payload> {
         }),
         "Callback.AfterTrade" => {
             let bal = h.app.wrap().query_balance(&h.vault, "uwhale").map(|c| c.amount).unwrap_or_default();
+            // what the vault holds when the message arrives
+            let bal = if cx.inloan { bal.saturating_sub(Uint128::new(super::hub::LOAN_AMOUNT)) } else { bal };
             M::Callback(vmsg::CallbackMsg::AfterTrade {
                 old_balance: if cx.canon { bal } else { cx.amt(bal.u128()) },
                 loan_amount: if cx.canon { Uint128::zero() } else { cx.amt(0) },
